@@ -265,6 +265,22 @@ func genRun(r *lp.Rng) {
 		nextID++
 		roots = append(roots, x)
 	}
+	// two roots that only a DSL registers, the dependent one first, in ONE expression (so that the
+	// registry is dependency-closed again when the pass ends): they must still run dependency first
+	pairP, pairB := -1, -1
+	if dyn && r.Intn(2) == 0 {
+		var late []int
+		for i := 0; i < n; i++ {
+			if !isInit[i] {
+				late = append(late, i)
+			}
+		}
+		if len(late) >= 2 {
+			pairP, pairB = late[0], late[1]
+			roots[pairP].deps = append(roots[pairP].deps, name(pairB))
+		}
+	}
+	pairPlaced := false
 	// spare expressions that DSLs may append
 	spare := []int{}
 	for k := 0; k < 3; k++ {
@@ -295,11 +311,31 @@ func genRun(r *lp.Rng) {
 				e.dsl = append(e.dsl, "e"+strconv.Itoa(tag))
 				tag++
 			}
+			if pairP >= 0 && !pairPlaced {
+				owner := -1
+				for ri, x := range roots {
+					for _, set := range x.sets {
+						for _, xid := range set {
+							if xid == id {
+								owner = ri
+							}
+						}
+					}
+				}
+				if owner >= 0 && isInit[owner] {
+					e.dsl = append(e.dsl, "r"+name(pairP), "r"+name(pairB))
+					pairPlaced = true
+				}
+			}
 			if dyn && r.Intn(4) == 0 {
 				switch r.Intn(2) {
 				case 0:
 					// register a root that is defined but not initially registered (or already registered)
-					e.dsl = append(e.dsl, "r"+name(r.Intn(n)))
+					k := r.Intn(n)
+					if k == pairP || k == pairB {
+						break // registered as a pair only
+					}
+					e.dsl = append(e.dsl, "r"+name(k))
 				default:
 					x := roots[r.Intn(n)]
 					if len(x.sets) > 0 {
